@@ -17,7 +17,11 @@ Record reply := mkReply { rp_code : N; rp_opts : list (N * list bytes); rp_body 
 Inductive step :=
 | Exchange (tid : N) (req : packet) (src : N) (rp : reply)
 | Sleep                                     (* idle for longer than the expiry duration *)
-| Nap.                                      (* idle for a third of the mode-2 expiry duration *)
+| Nap                                       (* idle for a third of the mode-2 expiry duration *)
+(* an exchange split in two: Begin = the request arrives and goes through intercept_request; End = the application
+   (slow) answers and the response goes through intercept_response.  Other steps may come in between. *)
+| Begin (tid : N) (req : packet) (src : N) (rp : reply)
+| End (tid : N).
 
 Definition rd_reply : rd reply := fun s =>
   match s with
@@ -33,6 +37,10 @@ Definition rd_step : rd step := fun s =>
                      | _ => None end
   | 1 :: r => Some (Sleep, r)
   | 3 :: r => Some (Nap, r)
+  | 4 :: tid :: r => match rd_packet r with
+                     | Some (p, src :: r1) => match rd_reply r1 with Some (rp, r2) => Some (Begin tid p src rp, r2) | None => None end
+                     | _ => None end
+  | 5 :: tid :: r => Some (End tid, r)
   | _ => None
   end.
 
@@ -64,13 +72,18 @@ Definition apply_reply (rq : request) (rp : reply) : request :=
     with_response rq (Some (set_payload r (rp_body rp)))
   end.
 
-(* result: fields of the observation, and the handler afterwards.  [always]: the server loop passes EVERY outgoing
-   response through intercept_response, also the ones intercept_request produced itself (mode 3) *)
-Definition exchange (always : bool) (h : handler) (now : N) (p : packet) (src : N) (rp : reply) : list N * handler :=
+(* first half of an exchange: the request goes through intercept_request *)
+Definition ex_begin (h : handler) (now : N) (p : packet) (src : N) : option (outcome bool * request * ckey) * handler :=
   match from_packet p src with
-  | Ok rq =>
-    let '(r1, rq1, h1) := intercept_request h now rq in
-    let k := request_key rq in
+  | Ok rq => let '(r1, rq1, h1) := intercept_request h now rq in (Some (r1, rq1, request_key rq), h1)
+  | _ => (None, h)
+  end.
+
+(* second half; result: fields of the observation, and the handler afterwards.  [always]: the server loop passes EVERY
+   outgoing response through intercept_response, also the ones intercept_request produced itself (mode 3) *)
+Definition ex_end (always : bool) (h1 : handler) (now : N) (b : option (outcome bool * request * ckey)) (rp : reply) : list N * handler :=
+  match b with
+  | Some (r1, rq1, k) =>
     match r1 with
     | Ok false =>
       let seen := payload (message rq1) in
@@ -90,8 +103,11 @@ Definition exchange (always : bool) (h : handler) (now : N) (p : packet) (src : 
       (wr_result r1 ++ 0 :: wr_bytes [] ++ [0; 0] ++ wr_optpkt8 (response rq1) ++ [enc_len (response rq1)]
        ++ wr_state (c_peek (h_ttl h1) now k (h_cache h1)) ++ [len (h_cache h1)], h1)
     end
-  | _ => ([9; 0], h)
+  | None => ([9; 0], h1)
   end.
+
+Definition exchange (always : bool) (h : handler) (now : N) (p : packet) (src : N) (rp : reply) : list N * handler :=
+  let '(b, h1) := ex_begin h now p src in ex_end always h1 now b rp.
 
 (* ttl mode 0: one hour, never reached; mode 1: short, Sleep steps exceed it.  Model time: a
    millisecond clock that stands still except for Sleep. *)
@@ -99,11 +115,29 @@ Definition ttl_of (mode : N) : N := if (mode =? 0) || (mode =? 3) then 3600000 e
 
 (* mode 1: only exchanges immediately after a Sleep are observed (everything else depends on
    the real clock) *)
-Fixpoint run_steps (h : handler) (now : N) (mode : N) (after_sleep : bool) (l : list step) : list N :=
+(* requests that have been through intercept_request and wait for their application: (tid, first half, reply) *)
+Definition pending := list (N * option (outcome bool * request * ckey) * reply).
+Fixpoint take_pending (t : N) (pd : pending) : option ((N * option (outcome bool * request * ckey) * reply) * pending) :=
+  match pd with
+  | [] => None
+  | ((t', b, rp) as x) :: r => if t' =? t then Some (x, r)
+                               else match take_pending t r with Some (y, r') => Some (y, x :: r') | None => None end
+  end.
+
+Fixpoint run_steps_p (pd : pending) (h : handler) (now : N) (mode : N) (after_sleep : bool) (l : list step) : list N :=
   match l with
   | [] => []
-  | Sleep :: r => run_steps h (now + 10 * h_ttl h + 1) mode true r
-  | Nap :: r => run_steps h (now + 100) mode after_sleep r
+  | Sleep :: r => run_steps_p pd h (now + 10 * h_ttl h + 1) mode true r
+  | Nap :: r => run_steps_p pd h (now + 100) mode after_sleep r
+  | Begin t p src rp :: r =>
+    let '(b, h1) := ex_begin h now p src in run_steps_p (pd ++ [(t, b, rp)]) h1 now mode after_sleep r
+  | End t :: r =>
+    match take_pending t pd with
+    | Some ((_, b, rp), pd') =>
+      let '(o, h') := ex_end (mode =? 3) h now b rp in
+      (len o :: o) ++ run_steps_p pd' h' now mode false r
+    | None => run_steps_p pd h now mode after_sleep r
+    end
   | Exchange _ p src rp :: r =>
     let '(o, h') := exchange (mode =? 3) h now p src rp in
     (if mode =? 2
@@ -111,8 +145,9 @@ Fixpoint run_steps (h : handler) (now : N) (mode : N) (after_sleep : bool) (l : 
              how long the naps really took) *)
           (if existsb (fun s => match s with Exchange _ _ _ _ => true | _ => false end) r then []
            else let o' := removelast o ++ [0] in len o' :: o')
-     else if (mode =? 0) || (mode =? 3) || after_sleep then len o :: o else []) ++ run_steps h' now mode false r
+     else if (mode =? 0) || (mode =? 3) || after_sleep then len o :: o else []) ++ run_steps_p pd h' now mode false r
   end.
+Definition run_steps := run_steps_p [].
 
 (* kind 2: an exchange whose application reply is the same as the previous exchange's *)
 Fixpoint rd_steps (k : nat) (prev : reply) (s : list N) : option (list step * list N) :=
@@ -128,7 +163,7 @@ Fixpoint rd_steps (k : nat) (prev : reply) (s : list N) : option (list step * li
     | _ =>
       match rd_step s with
       | Some (st, r1) =>
-        let prev' := match st with Exchange _ _ _ rp => rp | _ => prev end in
+        let prev' := match st with Exchange _ _ _ rp | Begin _ _ _ rp => rp | _ => prev end in
         match rd_steps k' prev' r1 with Some (l, r2) => Some (st :: l, r2) | None => None end
       | None => None end
     end
@@ -148,9 +183,9 @@ Definition run_case8 (s : list N) : list N :=
 
 (* suite 120 also runs every transfer alone on a fresh handler *)
 Definition tids (l : list step) : list N :=
-  fold_left (fun acc s => match s with Exchange t _ _ _ => if existsb (N.eqb t) acc then acc else acc ++ [t] | _ => acc end) l [].
+  fold_left (fun acc s => match s with Exchange t _ _ _ | Begin t _ _ _ => if existsb (N.eqb t) acc then acc else acc ++ [t] | _ => acc end) l [].
 Definition only (t : N) (l : list step) : list step :=
-  filter (fun s => match s with Exchange t' _ _ _ => t' =? t | _ => false end) l.
+  filter (fun s => match s with Exchange t' _ _ _ | Begin t' _ _ _ | End t' => t' =? t | _ => false end) l.
 Definition run_case12 (s : list N) : list N :=
   match rd_case8 s with
   | Some (m, mode, l) =>
@@ -228,8 +263,22 @@ Fixpoint rd_obs_list (fuel : nat) (s : list N) : option (list obs) :=
     end
   end.
 
-Definition exchanges (l : list step) : list (N * packet * N * reply) :=
-  flat_map (fun s => match s with Exchange t p src rp => [(t, p, src, rp)] | _ => [] end) l.
+(* the exchanges in the order in which they complete (a split exchange completes at its End) *)
+Fixpoint take_begun (t : N) (pd : list (N * packet * N * reply)) : option ((N * packet * N * reply) * list (N * packet * N * reply)) :=
+  match pd with
+  | [] => None
+  | ((t', _, _, _) as x) :: r => if t' =? t then Some (x, r)
+                                 else match take_begun t r with Some (y, r') => Some (y, x :: r') | None => None end
+  end.
+Fixpoint exchanges_p (pd : list (N * packet * N * reply)) (l : list step) : list (N * packet * N * reply) :=
+  match l with
+  | [] => []
+  | Exchange t p src rp :: r => (t, p, src, rp) :: exchanges_p pd r
+  | Begin t p src rp :: r => exchanges_p (pd ++ [(t, p, src, rp)]) r
+  | End t :: r => match take_begun t pd with Some (x, pd') => x :: exchanges_p pd' r | None => exchanges_p pd r end
+  | _ :: r => exchanges_p pd r
+  end.
+Definition exchanges (l : list step) : list (N * packet * N * reply) := exchanges_p [] l.
 
 (* ---------- common oracle parts ---------- *)
 Definition block_of (n : N) (p : packet) : option blockv := first_block n p.
